@@ -7,8 +7,9 @@ entries on which the independent RV32 reference disagrees).  Theorems (Props/C08
 decodability lemma over Model/Encode.v, the reflected per-ISA table theorems, and agreement with the
 independently written RV32I/M decoder Spec/RV32Decode.v for RISC-V only.
 Correspondence: real encode() vs encode_instr on sampled operands for every traced class variant.
-Search: Python read-back of the operands from the real bytes, an independent Python RV32 decoder and
-a line-nibble reference for m68k arithmetic.
+Search: Python read-back of the operands from the real bytes, an independent Python RV32 decoder, a
+line-nibble reference for m68k arithmetic, and (tools/props/c08_llvm.py, validation only) llvm-mc as an
+independent assembler for riscv(+rvc), arm, thumb, x86_64, msp430, avr, m68k and mips over ALL classes incl. custom.
 """
 import json
 from vlib import OkV, Diag, Internal
@@ -23,7 +24,10 @@ EXPLANATION = ('(a) all 12 ISA tables: unbounded generic theorem (well-formed de
                'every traced class variant, exact list of class pairs not separated by fixed bits. (b) reference agreement '
                '(independent decoder written from the ISA manual) exists ONLY for RISC-V RV32I/M base classes; the other ISAs have '
                'no reference decoder. Classes whose encode() cannot be expressed as slice writes of operand bit selections are '
-               'listed as custom_<arch> (counted in evidence) and are covered by nothing.')
+               'listed as custom_<arch> (counted in evidence) and are covered by no theorem; they (and the RVC classes) are covered '
+               'only by the search-only llvm-mc stage: every class of the 8 ISAs LLVM 14 supports x the whole immediate pool, '
+               'printed form assembled by llvm-mc and compared with encode() (validation, not proof; lines llvm-mc rejects are '
+               'skipped and counted in coverage.stages.llvm_mc).')
 TRUSTED = ['tools/props/c08_trace.py (symbolic tracer/exporter; cross-checked against the real encode() on every run)',
            'Python int arithmetic == Coq Z arithmetic',
            'Spec/RV32Decode.v is a faithful reading of the RISC-V unprivileged ISA manual (RV32I/M formats and opcode tables)',
@@ -292,6 +296,7 @@ def run(ctx):
         ctx.check_props('Props/C08.v')
     correspondence(ctx, T, info)
     search(ctx, T, info)
+    llvm_stage(ctx)
     ctx.cov['exhaustive'] = False
 
 
@@ -429,6 +434,29 @@ def search(ctx, T=None, info=None):
     ctx.cov['evaluations'] += n_eval
 
 
+def llvm_stage(ctx):
+    """search-only: ppci's printed instruction assembled by llvm-mc must give ppci's bytes (validation, not proof)"""
+    import shutil
+    if shutil.which('llvm-mc') is None:
+        ctx.cov['stages']['llvm_mc'] = 'llvm-mc not installed: stage skipped'
+        return
+    from props import c08_llvm as L
+    stats, mm = L.oracle(ctx, quick=ctx.quick() and not ctx.failed_stages)
+    ctx.cov['stages']['llvm_mc'] = {'per_isa': stats, 'excluded': {'%s/%s' % k: v for k, v in L.EXCLUDE.items()},
+                                    'note': 'validation only; rejected/untranslatable/reinterpreted lines are skipped, never reported'}
+    ctx.cov['evaluations'] += sum(st['compared'] for st in stats.values())
+    for m in mm:
+        ctx.violation({'fn': 'llvm-mc', 'isa': m['arch'], 'class': m['cls'], 'variant': m['variant'], 'args': m['args'],
+                       'key': 'llvm:%s:%s' % (m['arch'], m['cls']), 'printed': m['printed'], 'llvm_input': m['llvm_input'],
+                       'expected': m['expected'], 'actual': m['actual'],
+                       'llvm_reads_ppci_bytes_as': m['llvm_reads_ppci_bytes_as'],
+                       'llvm_reads_its_bytes_as': m['llvm_reads_its_bytes_as'],
+                       'what': 'llvm-mc assembles the instruction ppci prints to other bytes than ppci emits '
+                               '(expected = llvm-mc, actual = ppci)',
+                       'how_to_replay': "echo '%s' | llvm-mc -show-encoding <triple of %s>; compare with ins.encode().hex() = %s"
+                                        % (m['llvm_input'], m['arch'], m['actual'])})
+
+
 MANIFEST = {
     'text': 'proof, with partial reference coverage. For all 12 instruction sets (riscv, riscv+rvc, arm, thumb, x86_64, msp430, avr, m68k, '
             'mips, or1k, xtensa, microblaze) the slice writes that the real Instruction.encode() performs are exported per class variant by '
@@ -439,7 +467,10 @@ MANIFEST = {
             '(Spec/RV32Decode.v, written from the RISC-V manual) is proved ONLY for the RISC-V RV32I/M base classes (all register operands, '
             'all immediates); no reference decoder exists here for the other ISAs (objdump is installed for x86 only and is not used), so for '
             'them only the ppci-internal half (injectivity/decodability of the encoding) is established. Classes with data-dependent '
-            'encode() (most of x86_64, arm data processing, thumb, msp430) are listed as custom and are not covered.',
+            'encode() (most of x86_64, arm data processing, thumb, msp430) are listed as custom and are covered by no theorem. '
+            'Additionally, as VALIDATION ONLY (search oracle, no proof): for riscv(+rvc), arm, thumb, x86_64, msp430, avr, m68k and mips '
+            'every class incl. the custom ones is instantiated over an immediate/register pool, its printed form is assembled by '
+            'llvm-mc (LLVM 14) and the bytes are compared with encode(); or1k, xtensa, microblaze have no LLVM target here.',
     'note': 'trusted: Coq kernel; the symbolic tracer/exporter tools/props/c08_trace.py (validated on every run by comparing the real encode() '
             'with the Coq model on sampled operands of the traced variants); the reading of the RISC-V manual in Spec/RV32Decode.v and the '
             'per-mnemonic expectation table (assembly operand order, pseudo-instruction expansions). Relocations/label operands are modelled '
